@@ -50,9 +50,41 @@ func init() {
 			// known class, so 6-7 tokens give stacks that the symbol alphabets only
 			// reach at 18-25 symbols.
 			c.Inputs(spaces.XDRuns, c.Pick(6, 7), c11Driver)
+			// Delimiter runs around a complete inline link. To flanking its brackets
+			// and parentheses are ordinary punctuation, and closing the link leaves
+			// the delimiters in front of it on the stack: the reference procedure
+			// reads the link as "()" and the link's HTML is put back afterwards.
+			c.Inputs(spEmphLink, c.Pick(8, 9), func(x *X, in []byte) {
+				s := string(in)
+				if s == "" || s[0] == ' ' || s[len(s)-1] == ' ' || ref.ThematicBreak(s) >= 0 {
+					x.Count("skipped_leading_or_trailing_space_or_empty")
+					return
+				}
+				if _, _, w := ref.ListMarker(s); w >= 0 {
+					x.Count("skipped_list_item")
+					return
+				}
+				want := strings.ReplaceAll(ref.EmphasisHTML(strings.ReplaceAll(s, "[b](c)", "()")), "()", `<a href="c">b</a>`)
+				blocks, refs := cm.Parse(clone(in))
+				got := renderCfg(blocks, refs, cm.SoftBreakPreserve, false)
+				x.Validated()
+				if got != want {
+					x.Fail("emphasis-around-link-differs", "", in, "rendered %q, the spec procedure (link read as punctuation) gives %q", got, want)
+					return
+				}
+				if strings.Contains(want, "<em>") || strings.Contains(want, "<strong>") {
+					x.Nontrivial()
+				}
+				x.Outcome(tree.Hash64(structureOf(want)))
+				x.Sample(fmt.Sprintf("%q -> %s", s, want))
+			})
 		},
 	})
 }
+
+var spEmphLink = spaces.Space{Name: "Emph-link", Doc: "emphasis delimiters, a letter, a space and a complete inline link", Tokens: []string{"*", "_", "a", " ", "[b](c)"}}
+
+func init() { spaces.All = append(spaces.All, spEmphLink) }
 
 func c11Driver(x *X, in []byte) {
 	s := string(in)
